@@ -48,6 +48,11 @@ def load():
     repo = os.path.abspath(REPO)
     if sys.path[0] != repo:
         sys.path.insert(0, repo)
+    if os.environ.get("SIMKIT_FAKE_MPI") == "1":
+        # engine `mpi`: the in-process MPI world must exist before EasyFEA reads the launcher variables
+        from . import fakempi
+
+        fakempi.install()
     # EasyFEA prints (Newton iterations, "Saved simulation", ...): keep stdout for the harness.
     import io
     import contextlib
